@@ -73,6 +73,21 @@ func (m *permissionMap) addrs() []net.Addr {
 	return addrs
 }
 
+// permittedAddrs returns the addresses whose permission has been granted by the server.
+func (m *permissionMap) permittedAddrs() []net.Addr {
+	m.mutex.RLock()
+	defer m.mutex.RUnlock()
+
+	addrs := []net.Addr{}
+	for _, p := range m.permMap {
+		if p.state() == permStatePermitted {
+			addrs = append(addrs, p.addr)
+		}
+	}
+
+	return addrs
+}
+
 func newPermissionMap() *permissionMap {
 	return &permissionMap{
 		permMap: map[string]*permission{},
